@@ -67,7 +67,7 @@ def hertz_conical(delta, E, alpha, nu, contact_point=0, baseline=0):
     aa = 2*np.tan(alpha*pi/180)/pi * E/(1-nu**2)
     root = contact_point-delta
     pos = root > 0
-    bb = np.zeros_like(delta)
+    bb = np.zeros_like(delta, dtype=float)
     bb[pos] = root[pos]**2
     return aa*bb + baseline
 
